@@ -140,6 +140,16 @@ def refify (ts : List PyTok) : List PyTok :=
     | .str s => .str (replaceRC s)
     | t => t
 
+/-- the dedicated emitters `FunctionNode.func_*` that `emitE` models -/
+def emitHandlers : List (List Char) :=
+  [['p', 'i'], ['t', 'r', 'u', 'e'], ['f', 'a', 'l', 's', 'e'], ['a', 'r', 'r', 'a', 'y'],
+   ['a', 'r', 'r', 'a', 'y', 'r', 'o', 'w']]
+
+/-- the dedicated emitters that need the cell / address layer and are outside this model (kept out of C02's scope) -/
+def contextHandlers : List (List Char) :=
+  [['r', 'o', 'w'], ['c', 'o', 'l', 'u', 'm', 'n'], ['o', 'f', 'f', 's', 'e', 't'],
+   ['i', 'n', 'd', 'i', 'r', 'e', 'c', 't'], ['s', 'u', 'b', 't', 'o', 't', 'a', 'l']]
+
 /-! ### nodes -/
 
 mutual
